@@ -44,7 +44,8 @@ inline Made make_packet(vp::Choice& c, vp::Rng& rng, uint8_t toc_hi, int max_fra
   Made out;
   rfc::Spec s;
   s.toc_hi = toc_hi;
-  s.code = c.irange(0, 3);
+  static const int CW[] = {2, 1, 1, 4};
+  s.code = c.weighted(CW, 4);
   int M = s.code == 0 ? 1 : s.code < 3 ? 2 : c.chance(176) ? c.irange(1, std::min(max_frames, 6)) : c.irange(1, max_frames);
   if (M > max_frames && !allow_invalid) { M = max_frames; if (s.code != 3) s.code = M == 1 ? 0 : s.code; }
   if (allow_invalid && s.code == 3 && c.chance(6)) M = c.chance(128) ? max_frames + 1 : c.irange(1, 63);
